@@ -542,6 +542,14 @@ pub proof fn lemma_reaches_back<T: Eq + PartialOrd + Send + Sync, A: Clone>(g: G
     }
 }
 
+// one weak step from a to x: x is a successor name or a predecessor name of a (what plain_bfs unions into the next level)
+pub open spec fn wsteps<T: Eq + PartialOrd + Send + Sync, A: Clone>(g: Graph<T, A>, a: T, x: T) -> bool {
+    g.succ_names(a).contains(x) || g.pred_names(a).contains(x)
+}
+pub open spec fn wsteps_symmetric<T: Eq + PartialOrd + Send + Sync, A: Clone>(g: Graph<T, A>) -> bool {
+    forall|a: T, x: T| #[trigger] wsteps(g, a, x) ==> wsteps(g, x, a)
+}
+
 // what reverse() returns: a graph rebuilt (new_from_nodes_and_edges) from the same nodes and every edge flipped
 pub open spec fn reverse_outcome<T: Eq + PartialOrd + Send + Sync, A: Clone>(g: Graph<T, A>, r: Result<Graph<T, A>, Error>) -> bool {
     nfne_rel(node_names_of(g.nodes_vec@), Seq::new(g.all_edges_seq().len(), |i: int| spec_reversed(g.all_edges_seq()[i])), g.specs, r)
